@@ -112,6 +112,13 @@ def step (d : D) (line : String) : D × String :=
     let d := settle d
     let (d, rest) := writeAll { d with stalled := false, pending := [] } d.pending
     (settle { d with stalled := !rest.isEmpty, pending := rest }, "ok ||| " ++ (if impl == "ok" then "ok" else bad "writers stay blocked after the follower reads again"))
+  | ["rrange", o, l] => match o.toInt?, l.toInt? with
+    | some o, some l =>
+      -- the REST route and the client give the runner's answer: the window, whatever numbers are passed
+      let want := "lines=" ++ compress (window d.s.buffer o l)
+      if d.stalled then (d, "blocked ||| ok")
+      else (d, want ++ " ||| " ++ (if impl == want then "ok" else "bad:C19:C19: the log route did not answer with the window (5xx or a different result): want " ++ want))
+    | _, _ => (d, "bad-op")
   | ["range", o, l] => match o.toInt?, l.toInt? with
     | some o, some l =>
       let want := "lines=" ++ compress (window d.s.buffer o l)
